@@ -331,6 +331,8 @@ where
     /// Call [`LoRa::complete_rx`] to wait and handle result.
     pub async fn start_rx(&mut self) -> Result<(), RadioError> {
         if let RadioMode::Receive(listen_mode) = self.radio_mode {
+            // a duty-cycle reception may already be running (and the chip be in its sleep phase)
+            self.radio_kind.ensure_ready(self.radio_mode).await?;
             self.radio_kind.do_rx(listen_mode).await
         } else {
             Err(RadioError::InvalidRadioMode)
